@@ -10,7 +10,7 @@ import copy
 import torch
 
 from ..core import History, Inconclusive, Stats, Violation, bit_equal, thash
-from ..gen import (STOCK_KINDS, bs_ok, features_for, gen_barrier, gen_criterion, gen_derivative, gen_hedger,
+from ..gen import (gen_price_scale, STOCK_KINDS, bs_ok, features_for, gen_barrier, gen_criterion, gen_derivative, gen_hedger,
                    gen_primary, nin_of, BS_INPUTS)
 from ..world import (DT, HAS_VOL, OPTION_KINDS, RecModel, World, abstract_state, build_feature,
                      cast_module_outputs, feature_name, is_state_dep_spec, stepwise_twin)
@@ -34,7 +34,7 @@ ASSUMPTIONS = [
     "prev_hedge columns vs previous output: bitwise",
     "'empty' feature excluded; CPU only",
 ]
-PROBES = ["contract_changed_on_same_paths", "feature_schedule", "hedger_schedule", "recurrent_log", "recurrent_after_fault", "H2", "listed_hedge",
+PROBES = ["price_scale_not_one", "contract_changed_on_same_paths", "feature_schedule", "hedger_schedule", "recurrent_log", "recurrent_after_fault", "H2", "listed_hedge",
           "other_use_between", "prev_hedge_not_last", "loss_compared", "ww_model", "bound_feature_reused", "steps_out_of_order", "recurrent_under_grad"]
 
 
@@ -118,7 +118,7 @@ def generate(rng):
                                 "torch_seed": rng.seed31(), "restore_n": n0, "restore_seed": rng.seed31()})
             ops.append({"op": "recurrent", "hedger": "h1", "derivative": "d0", "hedge": hedge,
                         "grad": rng.chance(0.4), "mode": rng.choice(["train", "eval"])})
-    return {"profile": "c03", "env": {"default_dtype": "float32"}, "world": world, "ops": ops}
+    return {"profile": "c03", "env": {"default_dtype": "float32"}, "world": world, "ops": ops, "init": gen_price_scale(rng, prim["kind"])}
 
 
 def execute(program):
@@ -166,6 +166,9 @@ def _prep(world, hedger, d):
 
 
 def _execute(program, stats, hist):
+    INIT = tuple(program["init"]) if program.get("init") else None
+    if INIT is not None:
+        stats.probe("price_scale_not_one")
     torch.set_default_dtype(DT[program["env"].get("default_dtype", "float32")])
     try:
         world = World(program["world"])
@@ -224,12 +227,12 @@ def _execute(program, stats, hist):
                 d = world.derivatives[op["derivative"]]
                 torch.manual_seed(op["torch_seed"])
                 try:
-                    d.simulate(n_paths=op["n_paths"])
+                    d.simulate(n_paths=op["n_paths"], init_state=INIT)
                     _prep(world, h, d)
                     with torch.no_grad():
                         h.compute_hedge(d, hedge=world.hedge_list(op.get("hedge")))
                     torch.manual_seed(op["restore_seed"])
-                    d.simulate(n_paths=op["restore_n"])
+                    d.simulate(n_paths=op["restore_n"], init_state=INIT)
                 except Exception as e:
                     raise Inconclusive("other_use raised %r" % (e,))
                 stats.fault("F10_aliasing_resimulate")
@@ -243,7 +246,7 @@ def _execute(program, stats, hist):
             torch.manual_seed(op["torch_seed"])
             try:
                 d = world.derivatives[op["target"]]
-                d.simulate(n_paths=op["n_paths"])
+                d.simulate(n_paths=op["n_paths"], init_state=INIT)
             except Exception as e:
                 raise Inconclusive("simulate raised %r" % (e,))
             stats.market_years += op["n_paths"] * d.maturity
